@@ -133,7 +133,7 @@ for _i in range(1, 21):
 
 # ------------------------------------------------------------------------------------------------ paired views of a Duration
 
-FLOOR_VIEW = {"_floor_days", "_nanosecond_of_floor_day"}
+FLOOR_VIEW = {"_floor_days", "_nanosecond_of_floor_day", "__days", "__nano_of_day", "_Duration__days", "_Duration__nano_of_day"}
 TRUNC_VIEW = {"days", "nanosecond_of_day"}
 
 
@@ -146,10 +146,16 @@ def check_duration_views(ctx: Ctx, rr: RuleResult) -> None:
         if isinstance(f.node, ast.Lambda) or "_compatibility" in f.mod.rel:
             continue
         for st in own_nodes(f.node):
-            if not isinstance(st, (ast.Assign, ast.AnnAssign, ast.Return, ast.Expr, ast.AugAssign)):
+            if isinstance(st, (ast.If, ast.While)):
+                scope_nodes = list(ast.walk(st.test))
+            elif isinstance(st, (ast.Assign, ast.AnnAssign, ast.Return, ast.Expr, ast.AugAssign)):
+                scope_nodes = list(ast.walk(st))
+            else:
                 continue
+            if any(isinstance(x, ast.IfExp) for x in scope_nodes):
+                continue  # a conditional expression selects between the two views deliberately (the accessors themselves)
             uses: dict[str, set[str]] = {}
-            for n in ast.walk(st):
+            for n in scope_nodes:
                 if isinstance(n, ast.Attribute) and n.attr in FLOOR_VIEW | TRUNC_VIEW:
                     uses.setdefault(unparse(n.value), set()).add(n.attr)
             for base, at in uses.items():
